@@ -259,6 +259,10 @@ objs.append(None)
 res = sorted(objs)
 out = [None if x is None else (type(x).__name__, x.__name__, x.__module__) for x in res]
 hs = [hash(x) == hash((x.__name__, x.__module__)) for x in objs if x is not None and type(x).__name__ == 'InterfaceClass']
+# names containing a space are outside the ordering claim (Element.__init__ turns them into the doc string), but equal objects must
+# still hash equal: two such interfaces of one module compare equal
+s1, s2 = _mk(0, 'first one', 'spaced'), _mk(0, 'second one', 'spaced')
+hs.append((not (s1 == s2)) or (hash(s1) == hash(s2) and {s1: 1}.get(s2) == 1))
 print(json.dumps([out, all(hs)]))
 ''' % ctx['root']
     results = {}
